@@ -146,7 +146,7 @@ def plan(case):
     script, opts, g, tabs = parsecase(case)
     sloppy = opts.get("sloppy") == "1"
     hdr = opts.get("hdr") == "1"
-    texts = [tabtext(g, tb, sloppy, hdr) for tb in tabs]
+    texts = [tabtext(g, tb, sloppy or opts.get("bare") == "1", hdr) for tb in tabs]
     a = []
     o = opts
     outfile = True
@@ -216,7 +216,22 @@ def plan(case):
         a += ["@0", "@1"] + (["@out"] if outfile else [])
     else:
         raise ValueError("unknown script " + script)
-    return script, texts, a, ("yes" if sloppy else "-"), outfile
+    envv = "yes" if sloppy else (TWVAL[opts["tw"]] if "tw" in opts else "-")      # "-" = variable not set
+    return script, texts, a, envv, outfile
+
+
+# process environment as a dimension: VOTCA_TABLES_WITHOUT_FLAG (the only variable CsgFunctions.pm / the table scripts read).
+# Only exactly 'yes' means sloppy tables (csg_call --sloppy-tables exports that); every other value must act like unset.
+TWVAL = {"yes": "yes", "no": "no", "off": "off", "false": "false", "0": "0", "empty": "", "YES": "YES"}
+
+
+def twin_of(case):
+    """for a case run with a non-'yes' value on a flagged table: the same call with the variable unset"""
+    script, opts, g, tabs = parsecase(case)
+    if "tw" not in opts or opts["tw"] == "yes" or opts.get("bare") == "1":
+        return None
+    del opts["tw"]
+    return mkcase(script, opts, g, tabs)
 
 
 def perl_env():
@@ -883,12 +898,25 @@ ORACLE = dict(linearop=o_linearop, scale=o_scale, integrate=o_integrate, shift=o
               extrapolate=o_extrapolate, boltzmann=o_boltzmann, ibi=o_ibi, combine=o_combine)
 
 
-def evaluate(case, res):
+def evaluate(case, res, twin=None):
     script, opts, g, tabs = parsecase(case)
     if res.hang:        # a script that does not terminate even alone with the 10x limit: a real violation
         return [(script + "-hang", "perl %s %s" % (FILES[script], res.err))], (script, "", "hang")
     c = Chk(script)
+    if opts.get("bare") == "1" and opts.get("tw", "unset") != "yes":
+        # a table without flag column is only allowed in sloppy mode (VOTCA_TABLES_WITHOUT_FLAG=yes)
+        if res.ok or res.out is not None:
+            c.fail("flagless-table-accepted-without-sloppy-mode", "VOTCA_TABLES_WITHOUT_FLAG=%s: table without flag column was read (all rows as flag i)"
+                   % (repr(TWVAL[opts["tw"]]) if "tw" in opts else "unset"))
+        return c.fails, (script, "", "bare-refused:" + opts.get("tw", "unset"))
     sig = ORACLE[script](c, opts, g, tabs, res)
+    if twin is not None and not twin.hang:
+        # any value other than 'yes' must be irrelevant: byte-identical to the call with the variable unset
+        if (res.ok, res.stdout, res.out) != (twin.ok, twin.stdout, twin.out):
+            c.fail("VOTCA_TABLES_WITHOUT_FLAG-other-than-yes-changes-result",
+                   "VOTCA_TABLES_WITHOUT_FLAG=%r: output %r, with the variable unset %r"
+                   % (TWVAL[opts["tw"]], (res.out if res.out is not None else res.stdout + res.err)[:120], (twin.out if twin.out is not None else twin.stdout + twin.err)[:120]))
+        sig = "env:%s:%s" % (opts["tw"], sig)
     return c.fails, (script, ",".join("%s=%s" % kv for kv in sorted(opts.items()) if kv[0] in ("op", "fn", "type", "from", "region")), sig)
 
 
@@ -992,6 +1020,7 @@ def gen(tier, mode, take):
             for t1 in values(3, ["0", "2"]):
                 for t2 in values(3, ["1", "2"] if op == "/" else ["0", "2"]):
                     yield mkcase("combine", dict(op=op), "a", [t1, t2])
+        yield from gen_env(tier, mode, mkcase)
         return
 
     # ---------------- linearop
@@ -1158,6 +1187,53 @@ def gen(tier, mode, take):
     for op in ("+", "/", "d"):
         for t in d7(1):
             yield mkcase("combine", dict(op=op), "a", [t, [["1", "2", "0.5", "1", "2", "0.5", "1"], t[1]]])
+    yield from gen_env(tier, mode, mkcase)
+
+
+
+def gen_env(tier, mode, mk):
+    """VOTCA_TABLES_WITHOUT_FLAG x every tool on tables that carry o/u rows, and flag-less tables"""
+    T = tier == "thorough"
+    if mode == "direct":
+        vals, small = ("no", "YES"), True
+    else:
+        vals, small = (("no", "off", "false", "0", "empty", "YES") if T else ("no", "off", "empty", "YES")), False
+    tabs3 = lambda: full(3, ["0.5", "2"], FL)
+    tools = [("linearop", dict(a="2", b="0.5", wf="i")), ("smooth", {}), ("shift", dict(type="bonded")),
+             ("extrapolate", dict(fn="linear", A="1")), ("integrate", {"from": "left"}), ("scale", dict(p1="2", p2="-1"))]
+    big = ("linearop", "smooth", "shift", "extrapolate")
+    for v in vals:
+        for script, o in tools:
+            oo = dict(o, tw=v)
+            fam = full(3) if (T and script in big and not small) else (full(3, ["2"], FL) if small else tabs3())
+            for t in fam:
+                yield mk(script, oo, "a", [t])
+        # readin_table_err path
+        for t in (full(3, ["2"], FL) if small else tabs3()):
+            yield mk("linearop", dict(a="-1", b="0.5", err="1", wf="i", tw=v), "a", [t + [["0.5", "1", "0"]]])
+            yield mk("integrate", dict(err="1", tw=v), "a", [t + [["0.5", "1", "0"]]])
+        for t in dev(B10[0], B10[1], 1, [("0", "i"), ("2", "u"), ("1", "o"), ("0", "o")]):
+            yield mk("boltzmann", dict(kbT="2.49", tw=v), "a", [t])
+        for pf in itertools.product(FL, repeat=3):
+            for tg in values(3, ["1", "2"] if not small else ["2"], "iou"):
+                yield mk("ibi", dict(kbT="2.49", tw=v), "a", [tg, [["1", "2", "1"], "uoi"], [["0"] * 3, "".join(pf)]])
+            for t1 in values(3, ["0", "2"] if not small else ["2"], "".join(pf)):
+                yield mk("combine", dict(op="+", wf="i", tw=v), "a", [t1, [["1", "2", "0.5"], "".join(pf)]])
+                yield mk("combine", dict(op="d", wf="io", sum="1", tw=v), "a", [t1, [["1", "2", "0.5"], "".join(pf)]])
+    # tables without flag column: refused unless the variable is exactly 'yes' (then every row has flag i)
+    for v in (None, "yes") + tuple(vals):
+        e = dict(bare="1")
+        if v:
+            e["tw"] = v
+        for t in values(3, ["0.5", "2"]):
+            for script, o in tools:
+                yield mk(script, dict(o, **e), "a", [t])
+            yield mk("linearop", dict(a="-1", b="0.5", err="1", **e), "a", [t + [["0.5", "1", "0"]]])
+            yield mk("integrate", dict(err="1", **e), "a", [t + [["0.5", "1", "0"]]])
+            yield mk("ibi", dict(kbT="2.49", **e), "a", [t, [["1", "2", "1"], "iii"], [["0"] * 3, "iii"]])
+            yield mk("combine", dict(op="+", **e), "a", [t, [["1", "2", "0.5"], "iii"]])
+        for t in dev(B10[0], B10[1], 1, [("0", "i")]):
+            yield mk("boltzmann", dict(kbT="2.49", **e), "a", [t])
 
 
 RULE = ("Perl table scripts read from the source tree, executed unmodified (batch: `do FILE` in one perl per chunk; "
@@ -1172,7 +1248,11 @@ RULE = ("Perl table scripts read from the source tree, executed unmodified (batc
         "3 rows (quick: reduced target alphabets / potential flags {i,u}^3+2) and 7-row triples within 1 (thorough 2) rows of a base; "
         "table_combine on all pairs of 3-row value vectors for the 8 operations plus --withflag/--sum/--die/--error/--scale/--no-flags grids. "
         "Oracle: closed-form Python from each help text (allowed sets where the text leaves a choice), 1e-12 relative tolerance "
-        "(perl prints 15 digits). Distinct = (script, main option, branch/flag signature of the result).")
+        "(perl prints 15 digits). Process environment: VOTCA_TABLES_WITHOUT_FLAG (the only variable the scripts read) in "
+        "{no,off,false,0,'',YES} (quick: no,off,'',YES) x every tool (both readin_table and readin_table_err) on 3-row tables over all 27 flag "
+        "strings (thorough: all 3375 for the flag-sensitive tools), 10-row dist tables, ibi/combine over all 27 flag strings: result byte-identical "
+        "to the run with the variable unset AND equal to the closed form; tables without flag column under {unset, each value}: refused, under 'yes': "
+        "read with flag i. Distinct = (script, main option, branch/flag signature of the result).")
 
 
 def main():
@@ -1181,8 +1261,10 @@ def main():
     if "--mode" in a.rest:
         mode = a.rest[a.rest.index("--mode") + 1]
     if a.case is not None:
+        tw = twin_of(a.case)
+        twres = run_direct(tw, "case", alone=True) if tw else None
         res = run_direct(a.case, "case", alone=True)
-        fails, sig = evaluate(a.case, res)
+        fails, sig = evaluate(a.case, res, twres)
         script, texts, argv, envv, outfile = plan(a.case)
         print("case:", a.case)
         print("command: perl %s %s   (VOTCA_TABLES_WITHOUT_FLAG=%s)" % (FILES[script], " ".join(argv), envv))
@@ -1210,13 +1292,26 @@ def main():
                 chunk[:] = [cs for cs in chunk if cs.split("|", 1)[0] not in HUNG]
         if not chunk:
             return
-        results = run_batch(chunk) if mode == "batch" else [(run_direct(cs, "d") if cs.split("|", 1)[0] not in HUNG else Res(False, "", "not started", None, "skipped")) for cs in chunk]
+        twins = {}
+        for cs in chunk:
+            if "tw=" in cs:
+                t = twin_of(cs)
+                if t is not None:
+                    twins.setdefault(t, None)
+        todo = chunk + list(twins)
+        results = run_batch(todo) if mode == "batch" else [(run_direct(cs, "d") if cs.split("|", 1)[0] not in HUNG else Res(False, "", "not started", None, "skipped")) for cs in todo]
+        for t, r in zip(todo[len(chunk):], results[len(chunk):]):
+            twins[t] = r
+        R.count("unset_twin_runs", len(twins))
         for cs, res in zip(chunk, results):
             if res.hang == "skipped":
                 R.cap("script(s) %s do not terminate: their remaining cases were not started (counter not_started_after_hang)" % ",".join(sorted(HUNG)))
                 R.count("not_started_after_hang")
                 continue
-            fails, sig = evaluate(cs, res)
+            tw = twins.get(twin_of(cs)) if "tw=" in cs else None
+            if tw is not None and tw.hang == "skipped":
+                tw = None
+            fails, sig = evaluate(cs, res, tw)
             R.eval()
             R.count(sig[0])
             R.cls(sig)
